@@ -726,6 +726,14 @@ void sim_warnx(const char *fmt, ...)
 
 uid_t sim_geteuid(void) { return 0; }
 
+// the hosted programs see only the environment the scenario gave their instance (never the harness's own)
+char *sim_getenv(const char *name)
+{
+	if (!W.current || !name) return nullptr;
+	auto it = W.current->env.find(name);
+	return it == W.current->env.end() ? nullptr : const_cast<char *>(it->second.c_str());
+}
+
 int sim_getaddrinfo(const char *node, const char *service, const struct addrinfo *hints, struct addrinfo **res)
 {
 	int fam = hints ? hints->ai_family : AF_UNSPEC;
